@@ -140,18 +140,23 @@ def run(ctx):
     v1, _ = vlib.validate_trace(ctx, "WalStoreTrace", "WalStoreTrace_b.cfg", p1, is_reset)
     v0, _ = vlib.validate_trace(ctx, "WalStoreTrace", "WalStoreTrace_b.cfg", rtrace, is_reset, chunk_events=20000) if False else ([], 0)
     st["corrupted_last_index_rejected"] = any(v[1] == "LastIndex" for v in v1)
-    mut = [json.loads(x) for x in good]
-    for i, e in enumerate(mut):
-        if e["ev"] == "save" and e["terms"]:
-            del mut[i]
+    # drop one call that appended entries: the answers recorded after it no longer fit the shortened history.  (A call
+    # whose effect the next calls overwrite completely can be dropped unnoticed: a few candidates are tried.)
+    cands = [i for i, x in enumerate(good) if json.loads(x)["ev"] == "save" and json.loads(x)["terms"]][:6]
+    st["dropped_call_rejected"] = False
+    for k, ci in enumerate(cands):
+        mut = [json.loads(x) for x in good]
+        del mut[ci]
+        p2 = ctx.path("self2-%d.ndjson" % k)
+        open(p2, "w").writelines(json.dumps(e) + "\n" for e in mut)
+        try:
+            v2, _ = vlib.validate_trace(ctx, "WalStoreTrace", "WalStoreTrace_m.cfg", p2, is_reset)
+            if len(v2) > 0:
+                st["dropped_call_rejected"] = True
+        except vlib.NoVerdict:
+            st["dropped_call_rejected"] = True     # the shortened history is no longer evaluable at all
+        if st["dropped_call_rejected"]:
             break
-    p2 = ctx.path("self2.ndjson")
-    open(p2, "w").writelines(json.dumps(e) + "\n" for e in mut)
-    try:
-        v2, _ = vlib.validate_trace(ctx, "WalStoreTrace", "WalStoreTrace_m.cfg", p2, is_reset)
-        st["dropped_call_rejected"] = len(v2) > 0
-    except vlib.NoVerdict:
-        st["dropped_call_rejected"] = True     # the shortened history is no longer evaluable at all
     ctx.cov["binding_selftest"].update(st)
     if not all(st.values()):
         raise vlib.NoVerdict("binding self-test failed: %s" % st)
